@@ -130,7 +130,7 @@ func (s *S) Run(c *scen.Ctx) {
 		for k := 0; k < simrt.Draw(4, "c15.nphases"); k++ {
 			t += time.Duration(1+simrt.Draw(40, "c15.gap")) * time.Second
 			d := []time.Duration{2 * time.Second, 4 * time.Second, 6 * time.Second, 12 * time.Second, 33 * time.Second, 45 * time.Second, 70 * time.Second, 100 * time.Second}[simrt.Draw(8, "c15.dur")]
-			mode := []string{"silent", "refusing", "silent"}[simrt.Draw(3, "c15.mode")]
+			mode := []string{"silent", "refusing", "silent", "flaky"}[simrt.Draw(4, "c15.mode")]
 			n.phases = append(n.phases, phase{t, t + d, mode})
 			c.Count("fault.phase_"+mode, 1)
 			t += d
@@ -151,8 +151,13 @@ func (s *S) Run(c *scen.Ctx) {
 		n := n
 		n.mode = "healthy"
 		srv, err := world.StartServer(n.addr, func(sc *world.SrvConn, req *refcodec.Request, raw []byte) {
-			if n.modeAt(simrt.Elapsed()) == "silent" {
+			switch n.modeAt(simrt.Elapsed()) {
+			case "silent":
 				return
+			case "flaky": // answers about every other request: failures interleaved with successes
+				if simrt.Draw(2, "c15.flaky") == 1 {
+					return
+				}
 			}
 			sc.Reply(world.Echo(req))
 		})
@@ -341,12 +346,14 @@ func (s *S) Check(c *scen.Ctx, res *simrt.Result) {
 		var streakStart time.Duration
 		wasIn := true
 		var lastProbe time.Duration = -1
+		var outSince time.Duration = -1
 		oi := 0
 		for _, cr := range s.calls {
 			// rotation changes observed up to the start of this call
 			for oi < len(ob) && ob[oi].t <= cr.t0 {
 				now := has(ob[oi].active, n.host)
 				if wasIn && !now {
+					outSince = ob[oi].t
 					c.Count("probe.endpoint_left_rotation", 1)
 					if failsSince < 2 {
 						c.Fail(s.propID(), "removed-without-failures", "checkActive", "endpoint %s left the rotation at %v after only %d failed call(s) since it was (re)instated", n.host, ob[oi].t, failsSince)
@@ -367,6 +374,9 @@ func (s *S) Check(c *scen.Ctx, res *simrt.Result) {
 			othersActive := len(cr.activeAt) > 0
 			if isProbe && othersActive {
 				// a call to an endpoint outside the rotation while others are in it is a probe
+				if lastProbe < 0 && outSince >= 0 && cr.t0-outSince < 29*time.Second-maxGap-500*time.Millisecond && cr.t0 > outSince+2*time.Second {
+					c.Fail(s.propID(), "probe-too-soon", "checkActive", "endpoint %s was seen out of rotation at %v and was called again at %v, only %v later, while other endpoints were in rotation: a blocked endpoint is probed no more often than every 30s", n.host, outSince, cr.t0, cr.t0-outSince)
+				}
 				if lastProbe >= 0 && cr.t0-lastProbe < 29*time.Second-maxGap {
 					c.Fail(s.propID(), "probe-too-often", "checkActive", "blocked endpoint %s was called at %v and again at %v (%v apart) while other endpoints were in rotation: more often than every 30s", n.host, lastProbe, cr.t0, cr.t0-lastProbe)
 				}
@@ -416,6 +426,32 @@ func (s *S) Check(c *scen.Ctx, res *simrt.Result) {
 						c.Fail(s.propID(), "not-blocked", "checkActive", "endpoint %s failed %d calls in a row over %v (last at %v) and was still in rotation at %v although other endpoints were active", n.host, streak, cr.t1-streakStart, cr.t1, from)
 					}
 				}
+			}
+		}
+	}
+	// bounded liveness once faults stop: an endpoint whose server has been healthy for 75s
+	// (two probe periods and slack) while calls keep flowing must be back in rotation
+	for _, n := range s.nodes {
+		healthyFrom := time.Duration(0)
+		for _, p := range n.phases {
+			if p.to > healthyFrom {
+				healthyFrom = p.to
+			}
+		}
+		deadline := healthyFrom + 75*time.Second
+		if deadline+2*time.Second > lastObs {
+			continue
+		}
+		c.Count("probe.recovery_window_checked", 1)
+		if in, _ := inRotationDuring(n.host, deadline, lastObs); !in {
+			calls := 0
+			for _, cr := range s.calls {
+				if cr.t0 >= healthyFrom && cr.t0 <= deadline {
+					calls++
+				}
+			}
+			if calls >= 30 {
+				c.Fail(s.propID(), "never-reinstated", "checkStatus", "endpoint %s has been healthy since %v; %d calls were made in the following 75s and it still is not back in rotation at %v (it is not being probed)", n.host, healthyFrom, calls, lastObs)
 			}
 		}
 	}
